@@ -14,6 +14,7 @@ import (
 	"strings"
 
 	"google.golang.org/protobuf/reflect/protoreflect"
+	"google.golang.org/protobuf/types/descriptorpb"
 )
 
 // Scalar is a scalar value in a representation of the model's own.
@@ -131,8 +132,11 @@ func NewMsg(md protoreflect.MessageDescriptor) *AMsg {
 // ExplicitPresence is the model's own reading of the presence discipline:
 // proto2 singular fields, proto3 optional / oneof members / message fields
 // track presence explicitly; proto3 plain scalars do not; repeated and map
-// fields never do. For editions the resolved feature is taken from the
-// descriptor (there is no second source for it).
+// fields never do. For editions the feature is resolved here, independently
+// of both resolvers of the library (internal/filedesc and reflect/protodesc),
+// from the declared options: features.field_presence on the field, else on
+// the file, else the edition default (EXPLICIT for 2023 and 2024); message
+// fields and oneof members always track presence.
 func ExplicitPresence(fd protoreflect.FieldDescriptor) bool {
 	if fd.IsList() || fd.IsMap() {
 		return false
@@ -146,7 +150,42 @@ func ExplicitPresence(fd protoreflect.FieldDescriptor) bool {
 	case protoreflect.Proto3:
 		return fd.Message() != nil || fd.ContainingOneof() != nil || fd.HasOptionalKeyword()
 	}
-	return fd.HasPresence()
+	if fd.Message() != nil || fd.ContainingOneof() != nil {
+		return true
+	}
+	if fp, ok := declaredFieldPresence(fd.Options()); ok {
+		return fp != descriptorpb.FeatureSet_IMPLICIT
+	}
+	if fp, ok := declaredFieldPresence(fd.ParentFile().Options()); ok {
+		return fp != descriptorpb.FeatureSet_IMPLICIT
+	}
+	return true
+}
+
+// declaredFieldPresence reads features.field_presence from a FieldOptions or FileOptions message
+// (whatever concrete message type the descriptor hands out).
+func declaredFieldPresence(opts protoreflect.ProtoMessage) (descriptorpb.FeatureSet_FieldPresence, bool) {
+	if opts == nil {
+		return 0, false
+	}
+	m := opts.ProtoReflect()
+	if !m.IsValid() {
+		return 0, false
+	}
+	ffd := m.Descriptor().Fields().ByName("features")
+	if ffd == nil || !m.Has(ffd) {
+		return 0, false
+	}
+	fs := m.Get(ffd).Message()
+	pfd := fs.Descriptor().Fields().ByName("field_presence")
+	if pfd == nil || !fs.Has(pfd) {
+		return 0, false
+	}
+	v := descriptorpb.FeatureSet_FieldPresence(fs.Get(pfd).Enum())
+	if v == descriptorpb.FeatureSet_FIELD_PRESENCE_UNKNOWN {
+		return 0, false
+	}
+	return v, true
 }
 
 // Default returns the declared (or zero) default of a scalar field.
